@@ -60,66 +60,118 @@ func runC19(c *core.Ctx) {
 			}
 		}
 	})
-	// R: fields whose value feeds a test with an error-only branch in checkHeaderBodyCorrelation
+	// R: fields whose value feeds a test with an error-only branch in checkHeaderBodyCorrelation. A test may
+	// be delegated to a boolean helper of the package (`if !matches(hdr, mb) { return err }`): the helper's
+	// tests whose branch leads only to the refusing answer count, its parameters standing for the arguments;
+	// the index map may likewise be built by a helper that returns it.
 	compared := map[*types.Var]string{}
-	for _, b := range ck.Blocks {
-		ifi, ok := b.Instrs[len(b.Instrs)-1].(*ssa.If)
-		if !ok {
-			continue
-		}
-		errBranch := false
-		for i, s := range b.Succs {
-			_ = i
-			if core.OnlyErrorReturnsFrom(s, b, nil) {
-				errBranch = true
-			}
-		}
-		if !errBranch {
-			continue
-		}
-		c.Sites++
-		for si, sblk := range b.Succs {
-			if !core.OnlyErrorReturnsFrom(sblk, b, nil) {
-				continue
-			}
-			for _, at := range impliedBy(ifi.Cond, si == 0, 0) {
-				reach := core.BackwardReach(at.v)
-				mismatch := false
-				if bo, ok := at.v.(*ssa.BinOp); ok {
-					mismatch = (bo.Op == token.NEQ && at.val) || (bo.Op == token.EQL && !at.val)
+	var scan func(fn *ssa.Function, body map[ssa.Value]bool, fail func(s, b *ssa.BasicBlock) bool, retFail *bool, depth int)
+	scan = func(fn *ssa.Function, body map[ssa.Value]bool, fail func(s, b *ssa.BasicBlock) bool, retFail *bool, depth int) {
+		fromBody := func(reach map[ssa.Value]bool) bool {
+			for w := range reach {
+				if body[w] {
+					return true
 				}
-				for v := range reach {
-					if _, f := core.FieldLoad(v); f != nil && isMBHField(f) && mismatch {
-						// the other operand must come from the body miniblock (p2)
-						for w := range reach {
-							if strings.HasPrefix(core.ExprKey(w), "p2") {
-								compared[f] = c.P.Pos(ifi.Pos())
+			}
+			return false
+		}
+		mapUpdatesOf := func(m ssa.Value) (out []*ssa.MapUpdate) {
+			core.Instrs(fn, func(in ssa.Instruction) {
+				if mu, ok := in.(*ssa.MapUpdate); ok && mu.Map == m {
+					out = append(out, mu)
+				}
+			})
+			if call, ok := m.(*ssa.Call); ok {
+				if h := call.Call.StaticCallee(); h != nil && h.Blocks != nil && h.Pkg == ck.Pkg {
+					for _, r := range core.Returns(h) {
+						rv := core.RetOperand(r, 0)
+						core.Instrs(h, func(in ssa.Instruction) {
+							if mu, ok := in.(*ssa.MapUpdate); ok && mu.Map == rv {
+								out = append(out, mu)
+							}
+						})
+					}
+					c.Analysed(fname(h))
+				}
+			}
+			return out
+		}
+		atom := func(at atomVal, pos token.Pos) {
+			reach := core.BackwardReach(at.v)
+			mismatch := false
+			if bo, ok := at.v.(*ssa.BinOp); ok {
+				mismatch = (bo.Op == token.NEQ && at.val) || (bo.Op == token.EQL && !at.val)
+			}
+			for v := range reach {
+				if _, f := core.FieldLoad(v); f != nil && isMBHField(f) && mismatch {
+					// the other operand must come from the body miniblock
+					if fromBody(reach) {
+						compared[f] = c.P.Pos(pos)
+					}
+				}
+				// presence in a map keyed by a header field, looked up by a key derived from the body miniblock
+				if lk, ok := v.(*ssa.Lookup); ok {
+					if _, isMap := lk.X.Type().Underlying().(*types.Map); !isMap {
+						continue
+					}
+					for _, mu := range mapUpdatesOf(lk.X) {
+						for kv := range core.BackwardReach(mu.Key) {
+							if _, f := core.FieldLoad(kv); f != nil && isMBHField(f) && fromBody(core.BackwardReach(lk.Index)) {
+								compared[f] = c.P.Pos(pos)
 							}
 						}
 					}
-					// presence in a map keyed by a header field, looked up by a key derived from the body miniblock
-					if lk, ok := v.(*ssa.Lookup); ok {
-						if _, isMap := lk.X.Type().Underlying().(*types.Map); !isMap {
-							continue
+				}
+			}
+			// a boolean helper decides: its refusing answer is the one that takes this branch
+			if call, ok := at.v.(*ssa.Call); ok && depth < 2 {
+				h := call.Call.StaticCallee()
+				if h == nil || h.Blocks == nil || h.Pkg != ck.Pkg || h.Signature.Results().Len() != 1 {
+					return
+				}
+				if bt, isB := h.Signature.Results().At(0).Type().Underlying().(*types.Basic); !isB || bt.Kind() != types.Bool {
+					return
+				}
+				hb := map[ssa.Value]bool{}
+				for i, p := range h.Params {
+					if i < len(call.Call.Args) && (body[call.Call.Args[i]] || fromBody(core.BackwardReach(call.Call.Args[i]))) {
+						hb[p] = true
+					}
+				}
+				c.Analysed(fname(h))
+				val := at.val
+				scan(h, hb, func(s, b *ssa.BasicBlock) bool { return onlyConstBoolReturnsFrom(s, val) }, &val, depth+1)
+			}
+		}
+		for _, b := range fn.Blocks {
+			switch last := b.Instrs[len(b.Instrs)-1].(type) {
+			case *ssa.If:
+				hit := false
+				for si, sblk := range b.Succs {
+					if !fail(sblk, b) {
+						continue
+					}
+					hit = true
+					for _, at := range impliedBy(last.Cond, si == 0, 0) {
+						atom(at, last.Pos())
+					}
+				}
+				if hit {
+					c.Sites++
+				}
+			case *ssa.Return:
+				// `return a == b && ...`: the refusing answer implies one of the atoms
+				if retFail != nil && len(last.Results) == 1 {
+					if _, isC := last.Results[0].(*ssa.Const); !isC {
+						for _, at := range impliedBy(last.Results[0], *retFail, 0) {
+							atom(at, last.Pos())
 						}
-						core.Instrs(ck, func(in ssa.Instruction) {
-							if mu, ok := in.(*ssa.MapUpdate); ok && mu.Map == lk.X {
-								for kv := range core.BackwardReach(mu.Key) {
-									if _, f := core.FieldLoad(kv); f != nil && isMBHField(f) {
-										for w := range core.BackwardReach(lk.Index) {
-											if strings.HasPrefix(core.ExprKey(w), "p2") {
-												compared[f] = c.P.Pos(ifi.Pos())
-											}
-										}
-									}
-								}
-							}
-						})
 					}
 				}
 			}
 		}
 	}
+	scan(ck, map[ssa.Value]bool{ck.Params[2]: true}, func(s, b *ssa.BasicBlock) bool { return core.OnlyErrorReturnsFrom(s, b, nil) }, nil, 0)
 	var names []string
 	byName := map[string]*types.Var{}
 	for f := range written {
@@ -317,6 +369,35 @@ type atomVal struct {
 // impliedBy lists the atomic conditions a with a value x such that (a == x) alone forces
 // (v == pol): through negation, through `||` (any true disjunct makes it true) and through `&&`
 // (any false conjunct makes it false).
+// onlyConstBoolReturnsFrom: every return reachable from b answers the constant val.
+func onlyConstBoolReturnsFrom(b *ssa.BasicBlock, val bool) bool {
+	seen := map[*ssa.BasicBlock]bool{}
+	var walk func(x *ssa.BasicBlock) bool
+	walk = func(x *ssa.BasicBlock) bool {
+		if seen[x] {
+			return true
+		}
+		seen[x] = true
+		switch t := x.Instrs[len(x.Instrs)-1].(type) {
+		case *ssa.Return:
+			if len(t.Results) != 1 {
+				return false
+			}
+			cv, isC := core.ConstBool(t.Results[0])
+			return isC && cv == val
+		case *ssa.Panic:
+			return true
+		}
+		for _, s := range x.Succs {
+			if !walk(s) {
+				return false
+			}
+		}
+		return len(x.Succs) > 0
+	}
+	return walk(b)
+}
+
 func impliedBy(v ssa.Value, pol bool, depth int) []atomVal {
 	if depth > 8 {
 		return nil
